@@ -158,15 +158,30 @@ func mirror(v cty.Value, c cty.Type, j any, path string) (string, string) {
 		if !ok {
 			return "number part is not a JSON number", fmt.Sprintf("at %q: %#v written as %T %v", path, v, j, j)
 		}
+		// The token, read as an exact rational, must be the number as the
+		// documented serialization spells it: the shortest decimal text that
+		// identifies the number at its own precision (math/big's notion, which
+		// is also what the documented equality of non-whole numbers is built
+		// on); for a whole number the exact integer is accepted as well.
+		// (Whether a whole number survives the trip is the round-trip clause's
+		// business, see F-32.)
 		f := v.AsBigFloat()
-		prec := f.Prec()
-		if prec < 53 {
-			prec = 53
+		q, ok := new(big.Rat).SetString(string(n))
+		if !ok {
+			return "number text is not a decimal number", fmt.Sprintf("at %q: %s", path, clipStr(string(n), 80))
 		}
-		// the text must denote the number at the number's own precision
-		g, _, err := big.ParseFloat(string(n), 10, prec, big.ToNearestEven)
-		if err != nil || g.Cmp(f) != 0 {
-			return "number text does not denote the number at its own precision", fmt.Sprintf("at %q: %s (prec %d) written as %s", path, f.Text('g', 50), f.Prec(), clipStr(string(n), 80))
+		if f.IsInf() {
+			return "infinite number written as a JSON number", fmt.Sprintf("at %q: %s", path, clipStr(string(n), 80))
+		}
+		exact, _ := f.Rat(nil)
+		if exact == nil {
+			exact = new(big.Rat)
+		}
+		if q.Cmp(exact) != 0 {
+			short, ok2 := new(big.Rat).SetString(f.Text('f', -1))
+			if !ok2 || q.Cmp(short) != 0 {
+				return "number token is neither the number nor its shortest round-trip text", fmt.Sprintf("at %q: %s (prec %d) written as %s", path, f.Text('g', 50), f.Prec(), clipStr(string(n), 80))
+			}
 		}
 	case t.IsListType() || t.IsTupleType():
 		arr, ok := j.([]any)
